@@ -45,7 +45,7 @@ META = {
 REGION_ID = {'F24': 'F24-v1-nondict-attribution'}
 JUNK = [['N'], ['B', True], ['I', str(10 ** 30)], ['F', 'nan'], ['F', 'inf'], ['S', ''], ['L', []],
         ['L', [['I', '1'], ['I', '2'], ['I', '3']]], ['D', None, []], ['D', None, [[['S', 'zzz'], ['I', '1']]]],
-        ['S', 'junk'], ['I', '-7'], ['F', (1.5).hex()]]
+        ['S', 'junk'], ['I', '-7'], ['F', (1.5).hex()], ['L', [['S', 'x']]]]
 
 
 # ---------------------------------------------------------------------------------- reference wire format
@@ -225,7 +225,7 @@ LEAFY = ['int', 'str', 'float', 'bool', 'date', 'datetime', 'time', 'timedelta',
 
 def leafy_type(r, mb, allow_helpers=True):
     l = leaf(r.choice(LEAFY))
-    c = r.choice(['id', 'id', 'id', 'list', 'dictv', 'opt', 'tup', 'set', 'lit', 'union', 'typed', 'named', 'deque'])
+    c = r.choice(['id', 'id', 'id', 'list', 'dictv', 'opt', 'tup', 'set', 'lit', 'union', 'unionc', 'typed', 'named', 'deque'])
     if c == 'list':
         return seq('list', l)
     if c == 'deque':
@@ -242,6 +242,8 @@ def leafy_type(r, mb, allow_helpers=True):
         return lit('a', 'b', 3)
     if c == 'union':
         return union(leaf('int'), leaf('str'))
+    if c == 'unionc':      # F47: a container member next to `str`
+        return union(seq('list', leaf('int')), leaf('str'))
     if c == 'typed' and allow_helpers:
         return mb.typed([('rk', l)], [('ok', leaf('int'))])
     if c == 'named' and allow_helpers:
